@@ -26,9 +26,9 @@ FLAGS = ["subprocess", "net-connect", "net-listen", "ffi-define", "fs-write", "f
          "modules", "fs-temp", "ffi-use", "ffi-jit", "signal", "sandbox"]
 GROUPS = ["fs", "net", "ffi", "all"]
 
-SHAPES = ["marker", "newpath", "dir", "hostname", "addr", "port", "cmd", "envname", "zero", "r", "w",
+SHAPES = ["marker", "newpath", "dir", "hostname", "addr", "port", "cmd", "envname", "zero", "r", "w", "rt", "wct", "a", "r+", "w+",
           "file-r", "file-w", "stream-r", "stream-w", "table", "fn", "sig"]
-THREAD_SHAPES = ["marker", "newpath", "dir", "hostname", "addr", "port", "cmd", "envname", "zero", "r", "w", "table", "sig"]
+THREAD_SHAPES = ["marker", "newpath", "dir", "hostname", "addr", "port", "cmd", "envname", "zero", "r", "w", "rt", "wct", "a", "r+", "w+", "table", "sig"]
 
 # Functions never called by the sweep, with the reason (none of them is a capability-gated operation
 # whose omission could hide a violation, except where noted).
@@ -91,7 +91,7 @@ def make_items(funs, tuples):
 
 def run_config(chk, label, flags, items, scratch, thread=False, chunk=3000):
     env = {"VERIF_SBX_FLAGS": " ".join(flags), "VERIF_VTIME": "1",
-           "VERIF_SBX_SCRATCH": scratch, "VERIF_SBX_THREAD": "1" if thread else "0"}
+           "VERIF_SBX_SCRATCH": scratch, "VERIF_SBX_THREAD": str(int(thread))}
     res = run_batch("fast", DRIVER, items, env=env, chunk=chunk, timeout=60)
     nviol = 0
     stats = dict(ret=0, err=0, viol=0, crash=0, timeout=0, drvfail=0)
@@ -106,13 +106,13 @@ def run_config(chk, label, flags, items, scratch, thread=False, chunk=3000):
                     libc = rest.split("(")[0]
                     if exempt(cls, rest):
                         continue
-                    sig = "%s:%s:%s%s" % (cls, fname, libc, ":thread" if thread else "")
+                    sig = "%s:%s:%s%s" % (cls, fname, libc, {0: "", 1: ":thread", 2: ":detached-thread"}[int(thread)])
                     argtext = it
                     replay = ("(sandbox %s)\n(pp (protect (%s ...)))  # item %s\n"
                               "# the call above reached libc %s while capability %s was disabled\n" % (
                                   " ".join(":" + f for f in flags), fname, argtext, rest, cls))
                     if chk.violation(sig, "config (%s)%s: %s reached %s (class %s)" % (
-                            " ".join(flags), " in a new thread" if thread else "", argtext, rest, cls), replay):
+                            " ".join(flags), {0: "", 1: " in a new thread", 2: " in a detached (:n) thread"}[int(thread)], argtext, rest, cls), replay):
                         nviol += 1
                 chk.outcome(("viol", text[:60]))
             else:
@@ -232,7 +232,8 @@ def main():
                 run_config(chk, "+".join(cfg), cfg, its, scratch)
             thr_items = [it for it in keep if not any(s in it for s in (":file-", ":stream-", ":fn"))]
             for cfg in [["all"], ["fs"], ["net"], ["subprocess"], ["env"]]:
-                run_config(chk, "thread:" + "+".join(cfg), cfg, thr_items, scratch, thread=True, chunk=500)
+                run_config(chk, "thread:" + "+".join(cfg), cfg, thr_items, scratch, thread=1, chunk=500)
+                run_config(chk, "detached-thread:" + "+".join(cfg), cfg, thr_items, scratch, thread=2, chunk=500)
         else:
             for cfg in single + groups:
                 run_config(chk, "+".join(cfg), cfg, items, scratch)
@@ -247,7 +248,8 @@ def main():
                 if chk.out_of_time(0.95):
                     chk.cap("thread configurations not all run (time budget)")
                     break
-                run_config(chk, "thread:" + "+".join(cfg), cfg, thr_items, scratch, thread=True, chunk=500)
+                run_config(chk, "thread:" + "+".join(cfg), cfg, thr_items, scratch, thread=1, chunk=500)
+                run_config(chk, "detached-thread:" + "+".join(cfg), cfg, thr_items, scratch, thread=2, chunk=500)
         monotonic(chk)
         chk.add(states=len(keep))
         chk.cov["bound_completed"] = "argument tuples of length <= 2 over %d shapes" % len(SHAPES)
